@@ -57,6 +57,7 @@ type StageDef struct {
 	SrcKind   string // "comp" (runs under the job monitor) or "exec" (direct)
 	Threads   float64
 	MemGB     float64
+	VMemGB float64
 	Volatile  string // "", "strict", "false"
 	Retain    []string
 }
@@ -427,6 +428,9 @@ func (p *Prog) Render() (decls string, call string) {
 		}
 		if s.MemGB != 0 {
 			res = append(res, "mem_gb = "+strconv.FormatFloat(s.MemGB, 'g', -1, 64))
+		}
+		if s.VMemGB != 0 {
+			res = append(res, "vmem_gb = "+strconv.FormatFloat(s.VMemGB, 'g', -1, 64))
 		}
 		if s.Volatile != "" {
 			res = append(res, "volatile = "+s.Volatile)
